@@ -160,6 +160,15 @@ def run_case(case_id: int, prop: str = ''):
                     b0 = fh.read(1)
                     fh.seek(v[3] + v[4] // 2)
                     fh.write(bytes([b0[0] ^ 0x10]))
+                # is it damage at all?  (a flipped padding bit of a zlib stream changes nothing that is read back)
+                try:
+                    still = Raw(dmg).recover(v[1]) == table.get(v[1], contents[keys.index(v[1])] if v[1] in keys else None)
+                except Exception:  # pylint: disable=broad-except
+                    still = False
+                if still:
+                    res['stats']['damage_harmless'] = res['stats'].get('damage_harmless', 0) + 1
+                    shutil.rmtree(dmg, ignore_errors=True)
+                    continue
                 cd = dos.Container(dmg)
                 try:
                     try:
